@@ -32,20 +32,33 @@ for sub in ["lean/Kolibrie/Model", "lean/Kolibrie/Spec", "lean/Kolibrie/Lemmas",
         rel = os.path.join(sub, f)
         if os.path.isfile(os.path.join(W, rel)) and not os.path.exists(os.path.join(ROOT, rel)) and not re.fullmatch(r"C\d\d\.lean", f):
             cp(rel)
-# extractor items
+# extractor items: every top-level def / class / CONSTANT block of the agent's file that /verif's file lacks
 mine = open(os.path.join(ROOT, "tools/extract.py")).read()
 theirs = open(os.path.join(W, "tools/extract.py")).read()
-blocks = re.split(r"\n(?=def |# -{10,})", theirs)
-added = []
-for b in blocks:
-    m = re.match(r"def ([A-Za-z_0-9]+)\(", b)
-    if m and ("def %s(" % m.group(1)) not in mine:
-        added.append(b.rstrip() + "\n")
+def top_blocks(text):
+    lines = text.split("\n")
+    starts = [i for i, l in enumerate(lines) if re.match(r"(def |class |[A-Za-z_][A-Za-z_0-9]* = )", l)]
+    out = []
+    for k, i in enumerate(starts):
+        j = starts[k + 1] if k + 1 < len(starts) else len(lines)
+        # stop before the __main__ guard
+        body = []
+        for l in lines[i:j]:
+            if l.startswith("if __name__"):
+                break
+            body.append(l)
+        while body and (body[-1].strip() == "" or body[-1].startswith("#")):
+            body.pop()
+        name = re.match(r"(?:def |class )?([A-Za-z_][A-Za-z_0-9]*)", lines[i]).group(1)
+        out.append((name, "\n".join(body)))
+    return out
+have_names = {n for n, _ in top_blocks(mine)}
+added = [(n, b) for n, b in top_blocks(theirs) if n not in have_names]
 if added:
     marker = '\nif __name__ == "__main__":'
-    mine = mine.replace(marker, "\n" + "\n\n".join(added) + "\n" + marker)
+    mine = mine.replace(marker, "\n\n" + "\n\n\n".join(b for _, b in added) + "\n\n" + marker)
     open(os.path.join(ROOT, "tools/extract.py"), "w").write(mine)
-    print("extract.py: added", [re.match(r"def ([A-Za-z_0-9]+)", b).group(1) for b in added])
+    print("extract.py: added", [n for n, _ in added])
 # known findings
 kf = json.load(open(os.path.join(ROOT, "known_findings.json")))
 tk = json.load(open(os.path.join(W, "known_findings.json")))
